@@ -16,27 +16,27 @@ import (
 	bolt "go.etcd.io/bbolt"
 )
 
-// VerifDB drives the real localManager + APIRouter on a real bbolt file (C18).
-type VerifDB struct {
+// VerifC18DB drives the real localManager + APIRouter on a real bbolt file (C18).
+type VerifC18DB struct {
 	m      *localManager
 	router *APIRouter
 }
 
-// VerifOpenDB opens (or reopens) the database at path. now() is the manager's clock.
-func VerifOpenDB(path string, now func() time.Time, noSync bool) (*VerifDB, error) {
+// VerifC18OpenDB opens (or reopens) the database at path. now() is the manager's clock.
+func VerifC18OpenDB(path string, now func() time.Time, noSync bool) (*VerifC18DB, error) {
 	m, err := MakeLocalManager(path, common.WorldState{Now: now})
 	if err != nil {
 		return nil, err
 	}
 	m.db.NoSync = noSync
-	return &VerifDB{m: m, router: APIRouterOf(m)}, nil
+	return &VerifC18DB{m: m, router: APIRouterOf(m)}, nil
 }
 
-func (v *VerifDB) Manager() UserManager { return v.m }
-func (v *VerifDB) Close() error         { return v.m.Close() }
+func (v *VerifC18DB) Manager() UserManager { return v.m }
+func (v *VerifC18DB) Close() error         { return v.m.Close() }
 
 // Serve sends one request through the real router. A panic is reported, never swallowed.
-func (v *VerifDB) Serve(method, target string, body []byte) (status int, resp []byte, panicked string) {
+func (v *VerifC18DB) Serve(method, target string, body []byte) (status int, resp []byte, panicked string) {
 	rec := httptest.NewRecorder()
 	req := httptest.NewRequest(method, target, bytes.NewReader(body))
 	func() {
@@ -51,7 +51,7 @@ func (v *VerifDB) Serve(method, target string, body []byte) (status int, resp []
 }
 
 // CallHandler calls a handler directly with the given {UID} path variable (the router never yields an empty one).
-func (v *VerifDB) CallHandler(kind string, uidVar string, body []byte) (status int, resp []byte, panicked string) {
+func (v *VerifC18DB) CallHandler(kind string, uidVar string, body []byte) (status int, resp []byte, panicked string) {
 	rec := httptest.NewRecorder()
 	method := map[string]string{"post": "POST", "get": "GET", "del": "DELETE"}[kind]
 	req := httptest.NewRequest(method, "/admin/users/x", bytes.NewReader(body))
@@ -80,7 +80,7 @@ var verifKeys = []string{"SessionsCap", "UpRate", "DownRate", "UpCredit", "DownC
 
 // Dump reads the raw content of the database (bbolt only, none of Cloak's decoding):
 // [uidhex{cap,up,down,upc,downc,exp};...] in key order, "-" for an absent key, "+k" for any unexpected key.
-func (v *VerifDB) Dump() string {
+func (v *VerifC18DB) Dump() string {
 	var items []string
 	_ = v.m.db.View(func(tx *bolt.Tx) error {
 		return tx.ForEach(func(name []byte, b *bolt.Bucket) error {
